@@ -97,11 +97,14 @@ def ode2c_passes(remove_unused: bool, verbose: bool, delta: float, out_i: int, s
 
 CONDS["ode2py_config"] = '''
 def ode2py_config(has_verbose: bool, cfg_verbose: bool, has_delta: bool, cfg_delta: float, has_stiff: bool,
-                  has_scheme: bool, has_format: bool, has_backend: bool, verbose: bool, delta: float) -> bool:
+                  stiff_empty: bool, has_scheme: bool, scheme_empty: bool, has_format: bool, has_backend: bool,
+                  verbose: bool, delta: float) -> bool:
     """
     pre: math.isfinite(delta) and math.isfinite(cfg_delta)
     post: _
     """
+    cfg_stiff = [] if stiff_empty else ["cfg_state"]
+    cfg_scheme = [] if scheme_empty else [SCHEMES[1].value, SCHEMES[4].value]
     cfg = {}
     py = {}
     if has_verbose:
@@ -109,9 +112,9 @@ def ode2py_config(has_verbose: bool, cfg_verbose: bool, has_delta: bool, cfg_del
     if has_delta:
         cfg["delta"] = cfg_delta
     if has_stiff:
-        cfg["stiff_states"] = ["cfg_state"]
+        cfg["stiff_states"] = cfg_stiff
     if has_scheme:
-        cfg["scheme"] = [SCHEMES[1].value, SCHEMES[4].value]
+        cfg["scheme"] = cfg_scheme
     if has_format:
         py["format"] = PFORMATS[2].value
     if has_backend:
@@ -127,8 +130,8 @@ def ode2py_config(has_verbose: bool, cfg_verbose: bool, has_delta: bool, cfg_del
     want = dict(fname=FNAME, outname=None, remove_unused=False,
                 verbose=cfg_verbose if has_verbose else verbose,
                 delta=cfg_delta if has_delta else delta,
-                stiff_states=["cfg_state"] if has_stiff else ["cli_state"],
-                scheme=[SCHEMES[1], SCHEMES[4]] if has_scheme else [SCHEMES[0]],
+                stiff_states=cfg_stiff if has_stiff else ["cli_state"],
+                scheme=[Scheme(x) for x in cfg_scheme] if has_scheme else [SCHEMES[0]],
                 format=PFORMATS[2] if has_format else PFORMATS[0],
                 backend=BACKENDS[1] if has_backend else BACKENDS[0])
     return rec == want
